@@ -608,7 +608,7 @@ class Check(BaseCheck):
                 xpairs=[(o, i) for o in ('H_RTZ', 'S_RTP', 'D_RNE', 'INT') for i in ('H_RTN', 'D_RTZ', 'I_RNE')],
                 scalars=SCALARS_QUICK, lists=LISTS,
                 rcores=dict(funcs=['none', 'P32', 'Rz', 'P32Rz'], anns=list(G.R_ANN), nested=G.R_NESTED),
-                vouters=['H_RTZ', 'D_RNE'],
+                vouters=['H_RTZ'],
             )
             # seed-rotated extra slice of the next bound (size-4 skeletons), on top of the complete core
             plan['slice'] = dict(sizes=(4,), depth=3, kinds=allk, outer=['H_RTZ'], inner=['D_RNE'],
